@@ -4,6 +4,8 @@ package slip
 
 import (
 	"fmt"
+	"math"
+	"math/big"
 	"time"
 	"unsafe"
 )
@@ -64,6 +66,15 @@ func IsNil(v any) bool {
 }
 
 // SimpleObject creates an Object from simple data.
+// unsignedObject returns the fixnum or, above the fixnum range, the bignum
+// with the value.
+func unsignedObject(u uint64) Object {
+	if u <= math.MaxInt64 {
+		return Fixnum(u)
+	}
+	return (*Bignum)(new(big.Int).SetUint64(u))
+}
+
 func SimpleObject(val any) (obj Object) {
 	switch tv := val.(type) {
 	case bool:
@@ -82,7 +93,7 @@ func SimpleObject(val any) (obj Object) {
 		obj = Fixnum(tv)
 
 	case uint:
-		obj = Fixnum(tv)
+		obj = unsignedObject(uint64(tv))
 	case uint8:
 		obj = Octet(tv)
 	case uint16:
@@ -90,7 +101,7 @@ func SimpleObject(val any) (obj Object) {
 	case uint32:
 		obj = Fixnum(tv)
 	case uint64:
-		obj = Fixnum(tv)
+		obj = unsignedObject(tv)
 
 	case float32:
 		obj = SingleFloat(tv)
